@@ -449,9 +449,6 @@ func (nd *node) checkCertificate(d *specqbft.SignedMessage, local bool) {
 	if r := sha256.Sum256(d.FullData); r != d.Message.Root {
 		nd.violf("c02", "reported decision whose value does not hash to the certified root")
 	}
-	if d.Message.Height != nd.height {
-		nd.violf("c02", "reported decision for another height")
-	}
 	if local {
 		if valueCheck(d.FullData) != nil {
 			nd.violf("c02", "locally reached decision on a value that fails the value check")
@@ -487,7 +484,7 @@ func (nd *node) deliver(m *specqbft.SignedMessage) []*specqbft.SignedMessage {
 			nd.checkCertificate(dec, !controller.IsDecidedMsg(nd.share, m))
 			if !nd.hasDec {
 				nd.hasDec, nd.decided, nd.decVal = true, dec, dec.FullData
-			} else if !bytes.Equal(nd.decVal, dec.FullData) {
+			} else if !bytes.Equal(nd.decVal, dec.FullData) && nd.decided.Message.Height == dec.Message.Height {
 				nd.violf("c01", "operator %d reported two different decisions %s and %s", nd.id, valueID(nd.decVal), valueID(dec.FullData))
 			}
 		}
@@ -932,6 +929,176 @@ func oneRun(out *hx.Out, w *world, seed, c uint64, level string, nbyz int, mutAn
 	}
 }
 
+// scenarioF6 replays finding F6 (DESIGN 5.1) on the real controllers: operator 1 is Byzantine and the
+// leader of round 1 at height 0; it equivocates between values D and S.
+func scenarioF6(out *hx.Out) {
+	w := newWorld(4)
+	s := &sim{w: w, r: hx.NewRand(6, "f6", 0), nodes: map[spectypes.OperatorID]*node{}, byz: map[spectypes.OperatorID]bool{1: true},
+		height: 0, level: "ctrl", stats: map[string]int{}}
+	for _, id := range []spectypes.OperatorID{2, 3, 4} {
+		s.honest = append(s.honest, id)
+		s.nodes[id] = w.newNode(id, 0, "ctrl")
+	}
+	n2, n3, n4 := s.nodes[2], s.nodes[3], s.nodes[4]
+	D, S := valueBytes(1), valueBytes(2)
+	rootD, rootS := sha256.Sum256(D), sha256.Sum256(S)
+	n2.start(5)
+	n3.start(5)
+	n4.start(5)
+	propD := s.sign(1, s.base(specqbft.ProposalMsgType, 1, rootD), D)
+	propS := s.sign(1, s.base(specqbft.ProposalMsgType, 1, rootS), S)
+	prepD1 := s.sign(1, s.base(specqbft.PrepareMsgType, 1, rootD), nil)
+	prepS1 := s.sign(1, s.base(specqbft.PrepareMsgType, 1, rootS), nil)
+	comD1 := s.sign(1, s.base(specqbft.CommitMsgType, 1, rootD), nil)
+	comS1 := s.sign(1, s.base(specqbft.CommitMsgType, 1, rootS), nil)
+	one := func(ms []*specqbft.SignedMessage) *specqbft.SignedMessage {
+		if len(ms) == 0 {
+			return nil
+		}
+		return ms[len(ms)-1]
+	}
+	// (1) equivocating proposals; operators 2 and 3 prepare and commit D; operator 3 decides D
+	prep2 := one(n2.deliver(propD))
+	prep3 := one(n3.deliver(propD))
+	prep4 := one(n4.deliver(propS))
+	n2.deliver(prepD1)
+	n2.deliver(prep2)
+	com2 := one(n2.deliver(prep3)) // prepare quorum {1,2,3} at operator 2 -> commit D
+	n3.deliver(prepD1)
+	n3.deliver(prep2)
+	com3 := one(n3.deliver(prep3))
+	n3.deliver(comD1)
+	n3.deliver(com2)
+	dec3 := one(n3.deliver(com3)) // commit quorum {1,2,3}: operator 3 reports D and broadcasts the decided message
+	// (2) operator 2 times out of round 1 before seeing the commit quorum
+	n2.timeout()
+	// (3) operator 2 receives the decided message: round rewound to 1, decided, runner compacts
+	if dec3 != nil {
+		n2.deliver(dec3)
+	}
+	// (4) the leader's other round-1 proposal is accepted by operator 2
+	prepS2 := one(n2.deliver(propS))
+	// (5) prepare quorum {1,2,4} for S at operators 4 and 2, commit quorum {1,2,4} at operator 4
+	n4.deliver(prepS1)
+	n4.deliver(prep4)
+	var com4 *specqbft.SignedMessage
+	if prepS2 != nil {
+		com4 = one(n4.deliver(prepS2))
+		n2.deliver(prepS1)
+		n2.deliver(prep4)
+		comS2 := one(n2.deliver(prepS2))
+		n4.deliver(comS1)
+		if comS2 != nil {
+			n4.deliver(comS2)
+		}
+		if com4 != nil {
+			n4.deliver(com4)
+		}
+	}
+	var agree []string
+	var first *node
+	for _, id := range s.honest {
+		nd := s.nodes[id]
+		if !nd.hasDec {
+			continue
+		}
+		if first == nil {
+			first = nd
+		} else if !bytes.Equal(first.decVal, nd.decVal) {
+			agree = append(agree, fmt.Sprintf("c01 operators %d and %d reported different decisions %s and %s",
+				first.id, nd.id, valueID(first.decVal), valueID(nd.decVal)))
+		}
+	}
+	for _, id := range s.honest {
+		nd := s.nodes[id]
+		out.Case("scenario=f6 size=4 level=ctrl byz=[1] node=%d height=0", id)
+		for _, l := range nd.lines {
+			writeLine(out, l)
+		}
+		if id == s.honest[0] {
+			for _, v := range agree {
+				out.ViolF("%s", v)
+			}
+		}
+		out.End()
+	}
+}
+
+// decidedMode feeds certificates and forged decided messages to a real controller with a running
+// instance (C02): honest aggregate + one mutation from the property's forgery grammar.
+func decidedMode(out *hx.Out, seed uint64, n int, size int) {
+	for c := 0; c < n; c++ {
+		decidedOne(out, seed, uint64(c), size)
+	}
+}
+
+func decidedOne(out *hx.Out, seed, c uint64, size int) {
+	w := newWorld(size)
+	f := (size - 1) / 3
+	q := 2*f + 1
+	{
+		r := hx.NewRand(seed, "qbft-decided", c)
+		height := specqbft.Height(r.Intn(8))
+		s := &sim{w: w, r: r, nodes: map[spectypes.OperatorID]*node{}, byz: map[spectypes.OperatorID]bool{}, height: height, level: "ctrl", stats: map[string]int{}}
+		id := spectypes.OperatorID(1 + r.Intn(size))
+		nd := w.newNode(id, height, "ctrl")
+		nd.start(s.pickValue() / 5 * 5)
+		// sometimes let the instance make progress first
+		if r.Chance(1, 2) {
+			v := valueBytes(uint64(1 + r.Intn(3)))
+			ld := specqbft.RoundRobinProposer(&specqbft.State{Share: nd.share, Height: height}, 1)
+			nd.deliver(s.sign(ld, s.base(specqbft.ProposalMsgType, 1, sha256.Sum256(v)), v))
+		}
+		for k := 0; k < 1+r.Intn(3); k++ {
+			v := valueBytes(uint64(1 + r.Intn(3)))
+			root := sha256.Sum256(v)
+			round := uint64(1 + r.Intn(3))
+			nsig := hx.Pick(r, q, q, q+1, size, q-1, 1)
+			perm := r.Intn(size)
+			var ids []spectypes.OperatorID
+			var sks []*bls.SecretKey
+			for i := 0; i < nsig && i < size; i++ {
+				oid := spectypes.OperatorID((perm+i)%size + 1)
+				ids = append(ids, oid)
+				sks = append(sks, w.ks.Shares[oid])
+			}
+			msg := s.base(specqbft.CommitMsgType, round, root)
+			d := testingutils.MultiSignQBFTMsg(sks, ids, msg)
+			d.FullData = v
+			kind := r.Intn(12)
+			switch kind {
+			case 0: // duplicate signer
+				d.Signers = append(d.Signers[:len(d.Signers)-1], d.Signers[0])
+			case 1: // signer id 0
+				d.Signers[r.Intn(len(d.Signers))] = 0
+			case 2: // non-committee id
+				d.Signers[r.Intn(len(d.Signers))] = spectypes.OperatorID(size + 1 + r.Intn(3))
+			case 3: // signature aggregated from a different subset than listed
+				other := spectypes.OperatorID((perm+nsig)%size + 1)
+				d.Signers[0] = other
+			case 4: // value does not match root
+				d.FullData = valueBytes(uint64(20 + r.Intn(5)))
+			case 5: // wrong height
+				d.Message.Height = height + specqbft.Height(1+r.Intn(3))
+			case 6: // wrong identifier
+				d.Message.Identifier = []byte{9, 9, 9, 9}
+			case 7: // not a commit
+				d.Message.MsgType = specqbft.PrepareMsgType
+			case 8: // corrupted signature
+				d.Signature = append([]byte{}, d.Signature...)
+				d.Signature[5] ^= 4
+			}
+			out.Count(fmt.Sprintf("decided-kind-%d-signers-%d-of-%d", kind, nsig, q))
+			nd.deliver(d)
+		}
+		out.Case("decided seed=%d case=%d size=%d node=%d height=%d", seed, c, size, id, uint64(height))
+		for _, l := range nd.lines {
+			writeLine(out, l)
+		}
+		out.End()
+	}
+}
+
 func min64(a, b uint64) uint64 {
 	if a < b {
 		return a
@@ -985,6 +1152,36 @@ func replay(out *hx.Out, path string) {
 		if !strings.HasPrefix(l, "CASE ") {
 			continue
 		}
+		if strings.HasPrefix(l, "CASE") && strings.Contains(l, " decided seed=") {
+			var sd, cs uint64
+			sz := 4
+			for _, f := range strings.Fields(l) {
+				kv := strings.SplitN(f, "=", 2)
+				if len(kv) == 2 {
+					switch kv[0] {
+					case "seed":
+						sd, _ = strconv.ParseUint(kv[1], 10, 64)
+					case "case":
+						cs, _ = strconv.ParseUint(kv[1], 10, 64)
+					case "size":
+						sz, _ = strconv.Atoi(kv[1])
+					}
+				}
+			}
+			key := fmt.Sprintf("decided/%d/%d/%d", sd, cs, sz)
+			if !done[key] {
+				done[key] = true
+				replayDecided(out, sd, cs, sz)
+			}
+			continue
+		}
+		if strings.Contains(l, "scenario=f6") {
+			if !done["f6"] {
+				done["f6"] = true
+				scenarioF6(out)
+			}
+			continue
+		}
 		var seed, run uint64
 		size, level, nbyz, mut, steps := 4, "inst", -1, false, 0
 		for _, f := range strings.Fields(l) {
@@ -1018,6 +1215,12 @@ func replay(out *hx.Out, path string) {
 	}
 }
 
+func replayDecided(out *hx.Out, seed, c uint64, size int) {
+	tmp := hx.NewOut()
+	_ = tmp
+	decidedOne(out, seed, c, size)
+}
+
 func replayRun(out *hx.Out, seed, run uint64, size int, level string, nbyz int, mut bool, steps int) {
 	oneRun(out, newWorld(size), seed, run, level, nbyz, mut, steps)
 }
@@ -1046,6 +1249,10 @@ func main() {
 	switch mode {
 	case "net":
 		netMode(out, *seed, *n, *size, *level, *nbyz, *mut, *steps)
+	case "f6":
+		scenarioF6(out)
+	case "decided":
+		decidedMode(out, *seed, *n, *size)
 	case "replay":
 		replay(out, fs.Arg(0))
 	default:
